@@ -151,6 +151,26 @@ CLAIMED["C09"] = dict(cat="proof", tech="Coq proof (writer buffering + persist m
    note="fsync/fdatasync durability is the OS's promise; rotation and Journal::drop syncs are exercised by the adversary (clean close) but are not model theorems; tables' durability belongs to lsm-tree", ref="6 C09")
 CLAIMED["C02"]["text"] += (" Journal part as theorems (props/C02.v): C02_acknowledged_bytes_reach_the_os and C02_journal_recovers_acknowledged_prefix (Writer.v + C03 cut theorem).")
 
+CLAIMED["C10"] = dict(cat="proof", tech="Coq proof over a step model of journal sealing/reclaiming (all interleavings of its critical sections) + step-by-step conformance with real 64 MB journal traffic + crash right after every journal unlink",
+   text="Coq theorems (props/C10.v, closed) over JournalMgr.v, whose steps are the critical sections of the code (write under the journal lock, memtable rotation, "
+        "registration of flushed tables, journal sealing with build_seqno_map under the journal lock, JournalManager::maintenance, delete_keyspace, a compaction "
+        "dropping an item), for EVERY sequence of such steps: C10_evicted_only_when_durable (every record of every unlinked journal had reached a table of its "
+        "keyspace, or the keyspace was deleted), C10_oldest_first (maintenance removes a prefix of the sealed list), C10_back_to_one_partial (all flushed => one "
+        "journal, unless a compaction dropped a keyspace's newest flushed item), C10_example (non-vacuity). Tied to the code by translating workloads with real 66 MiB "
+        "journal traffic step by step into model operations and comparing journal_count after every step and the number of unlinked files (shim). The crash clause is "
+        "decided on the real code: every unlink of N.jnl is observed, a crash right after it must recover every acknowledged write.",
+   note=PROOF_NOTE + "; the translation of harness operations into model steps (which flush task a worker tick takes, when 64 000 000 bytes are passed) is correspondence glue; "
+        "thread interleavings inside a critical section are not modelled; process-crash model at the unlink points", ref="6 C10")
+CLAIMED["C13"]["tech"] += " + slow failing append with writers queued on the journal lock (multi-writer schedules judged by the order of journal writes)"
+CLAIMED["C13"]["text"] += (" Multi-writer: the failing write() is delayed while two more writers (insert, batch, transaction commit, clear, persist) queue on the journal lock; "
+                          "nothing may be acknowledged whose journal bytes follow the failed call. Partial theorem C13_poison_sticky_partial (props/C13.v).")
+CLAIMED["C13"]["note"] = "faults on journal files only; one family of multi-writer schedules, other thread schedules are not enumerated"
+CLAIMED["C18"]["text"] += (" An independent monitor over the implementation's own observations checks 'filtered once stays filtered until written again'; it is refuted for a Remove "
+                          "verdict across a reopen (known finding E17, theorem C18_stays_filtered_refuted with the same history); C18_filtered_form_stable_partial: the filtered form "
+                          "is a fixed point of the filter.")
+CLAIMED["C17"]["text"] += (" Also: refused directories without a lock file (known finding E18 for marker absent + lock absent, theorem C17_absent_marker_refuted), and dropping the last handle "
+                          "while a sealed journal is tracked followed by a reopen in the same process.")
+
 m = {"version": 1, "setup_cmd": "./setup.sh",
      "hooks": {"guard": "cargo feature fjall_verif",
                "enable": "harness/Cargo.toml depends on fjall = { path = \"/repo\", features = [\"fjall_verif\"] }",
